@@ -1,7 +1,7 @@
 """C04 - slicing returns exactly the selected characters and styles, closed at the end."""
 from .. import obs as O
 from ..gen import gen_bound, gen_range
-from .common import Contract, ansi_values, history, run_cases, tier_sizes, safe_obs, is_ansi, esc_seam_values, small_scope_values, small_scope_on
+from .common import trie_case, Contract, ansi_values, history, run_cases, tier_sizes, safe_obs, is_ansi, esc_seam_values, small_scope_values, small_scope_on
 
 PROP = 'C04'
 RULE = ('case = one s[i], s[i:j], clip(a,b) or iteration on a reachable value, bounds aimed at change points '
@@ -222,6 +222,19 @@ def drive(ctx, mon, tier, only_case=None):
                         pass
                 iteration_probe(ctx, mon, v)
             ctx.extra['n_small_scope_values'] = nv
+            return
+        if case == 1:
+            tb = [None, -4, -3, -2, -1, 0, 1, 2, 3, 4] if tier == 'thorough' else [None, -2, -1, 0, 1, 2, 3]
+
+            def visit(v, p):
+                for a in tb:
+                    for b in tb:
+                        v[a:b]
+                for i in range(-3, 3):
+                    v[i]
+                if len(p) % 2:
+                    iteration_probe(ctx, mon, v)
+            trie_case(ctx, mon, tier, 2, 3, visit=visit, cls=L.AnsiStr if ctx.shard % 4 == 3 else None)
             return
         profile = 'mixed' if rng.random() < 0.3 else 'wf'
         history(L, rng, ex, rng.randint(1, sz['nops']), sz['maxlen'], profile, WEIGHTS, esc=rng.random() < 0.12)
